@@ -1,4 +1,6 @@
-(* C02/Refuted.v -- round trips that fail on the faithful model: the known findings, machine-checked. *)
+(* C02/Refuted.v -- round trips that still fail on the faithful model: the findings that are kept
+   (F-C02-1 unsigned reinterpretation, F-C02-2 9-byte varint, null into an array), machine-checked; and
+   regression facts for the defects repaired in /repo (pre-fix outputs quoted in the comments). *)
 From GocqlV Require Import Lib.Base Gen.Consts C12.Model C12.Spec C12.Denote.
 
 Local Open Scope Z_scope.
@@ -13,14 +15,6 @@ Theorem rt_unsigned_wrap_refuted :
   /\ unmarshal 4 (TNative K.TypeBigInt) (Some [255; 255; 255; 255; 255; 255; 255; 255]) (YInt I64 false) = Ok (GInt I64 false (-1)).
 Proof. repeat split; vm_compute; reflexivity. Qed.
 
-(* F-C12-1 seen as a round trip: big.Int 5 -> bigint -> int64 gives 0; and a value outside int64 is accepted *)
-Theorem rt_bigint_bigInt_refuted :
-  marshal 4 (TNative K.TypeBigInt) (GBig 5) = Ok (Some [5])
-  /\ unmarshal 4 (TNative K.TypeBigInt) (Some [5]) (YInt I64 false) = Ok (GInt I64 false 0)
-  /\ unmarshal 4 (TNative K.TypeBigInt) (Some [5]) YBig = Ok (GBig 5)
-  /\ marshal 4 (TNative K.TypeBigInt) (GBig (2 ^ 70)) = Ok (Some [64; 0; 0; 0; 0; 0; 0; 0; 0]).
-Proof. repeat split; vm_compute; reflexivity. Qed.
-
 (* F-C02-2: the 9-byte varint form decodes only into *uint64 and *big.Int *)
 Theorem rt_varint_uint64_only_refuted :
   marshal 4 (TNative K.TypeVarint) (GInt U64 false (2 ^ 64 - 1)) = Ok (Some [0; 255; 255; 255; 255; 255; 255; 255; 255])
@@ -30,23 +24,34 @@ Theorem rt_varint_uint64_only_refuted :
   /\ unmarshal 4 (TNative K.TypeVarint) (Some [0; 255; 255; 255; 255; 255; 255; 255; 255]) YBig = Ok (GBig (2 ^ 64 - 1)).
 Proof. repeat split; vm_compute; reflexivity. Qed.
 
-(* F-C12-4 seen as a round trip: a typed nil pointer inside a []interface{} tuple comes back as a non-nil
-   pointer to the zero value (length 0 instead of -1) *)
-Theorem rt_tuple_typed_nil_refuted :
-  marshal 4 (TTuple [TNative K.TypeInt]) (GIfaces [GPtr None]) = Ok (Some [0; 0; 0; 0])
-  /\ unmarshal 4 (TTuple [TNative K.TypeInt]) (Some [0; 0; 0; 0]) (YIfaces [YPtr (YInt IInt false)])
-     = Ok (GIfaces [GPtr (Some (GInt IInt false 0))])
-  /\ marshal 4 (TTuple [TNative K.TypeInt]) (GIfaces [GNil]) = Ok (Some [255; 255; 255; 255])
-  /\ unmarshal 4 (TTuple [TNative K.TypeInt]) (Some [255; 255; 255; 255]) (YIfaces [YPtr (YInt IInt false)])
-     = Ok (GIfaces [GPtr None]).
+(* kept: null into an array target is an explicit error (a nil slice for a slice target) *)
+Theorem rt_null_into_array_refuted :
+  marshal 4 (TList (TNative K.TypeInt)) (GSlice None) = Ok None
+  /\ unmarshal 4 (TList (TNative K.TypeInt)) None (YArray 2 (YInt IInt false)) = Err
+  /\ unmarshal 4 (TList (TNative K.TypeInt)) None (YSlice (YInt IInt false)) = Ok (GSlice None).
 Proof. repeat split; vm_compute; reflexivity. Qed.
 
-(* null into a value target is an error instead of the zero value for these pairs *)
-Theorem rt_null_rejected_refuted :
+(* ---- repaired ------------------------------------------------------------------------------------------------ *)
+(* F-C12-1: big.Int 5 -> bigint was 05 and came back as 0 into *int64 *)
+Example fixed_rt_bigint_bigInt :
+  marshal 4 (TNative K.TypeBigInt) (GBig 5) = Ok (Some [0; 0; 0; 0; 0; 0; 0; 5])
+  /\ unmarshal 4 (TNative K.TypeBigInt) (Some [0; 0; 0; 0; 0; 0; 0; 5]) (YInt I64 false) = Ok (GInt I64 false 5)
+  /\ unmarshal 4 (TNative K.TypeBigInt) (Some [0; 0; 0; 0; 0; 0; 0; 5]) YBig = Ok (GBig 5)
+  /\ marshal 4 (TNative K.TypeBigInt) (GBig (2 ^ 70)) = Err.
+Proof. repeat split; vm_compute; reflexivity. Qed.
+
+(* F-C12-4: a typed nil pointer inside a []interface{} tuple came back as a pointer to the zero value *)
+Example fixed_rt_tuple_typed_nil :
+  marshal 4 (TTuple [TNative K.TypeInt]) (GIfaces [GPtr None]) = Ok (Some [255; 255; 255; 255])
+  /\ unmarshal 4 (TTuple [TNative K.TypeInt]) (Some [255; 255; 255; 255]) (YIfaces [YPtr (YInt IInt false)])
+     = Ok (GIfaces [GPtr None]).
+Proof. split; vm_compute; reflexivity. Qed.
+
+(* null into these value targets was an error; it is the zero value now, and stays nil for pointer targets *)
+Example fixed_rt_null_into_value_targets :
   marshal 4 (TNative K.TypeDecimal) (GPtr None) = Ok None
-  /\ unmarshal 4 (TNative K.TypeDecimal) None YDec = Err
+  /\ unmarshal 4 (TNative K.TypeDecimal) None YDec = Ok (GDec 0 0)
   /\ unmarshal 4 (TNative K.TypeDecimal) None (YPtr YDec) = Ok (GPtr None)
-  /\ unmarshal 4 (TNative K.TypeInet) None YIP = Err
-  /\ unmarshal 4 (TNative K.TypeTimeUUID) None YTime = Err
-  /\ unmarshal 4 (TList (TNative K.TypeInt)) None (YArray 2 (YInt IInt false)) = Err.
+  /\ unmarshal 4 (TNative K.TypeInet) None YIP = Ok (GIP [])
+  /\ unmarshal 4 (TNative K.TypeTimeUUID) None YTime = Ok (GTime zero_time_sec 0).
 Proof. repeat split; vm_compute; reflexivity. Qed.
